@@ -232,14 +232,36 @@ func fields(o StepOut) [][2]string {
 		{"detail", o.Detail}, {"st", o.St}, {"attrs", o.Attrs}, {"seed", o.Seed}}
 }
 
-func diff(a, b StepOut) (field, av, bv string) {
+// diff names the first field in which two outcomes differ.  Texts that print a dict (process text, error text,
+// st callback detail) render it in Go map order, which no run can reproduce; two such texts that are byte
+// permutations of each other are taken to be the same text (counted in *permuted).
+func diff(a, b StepOut, permuted *int) (field, av, bv string) {
 	fa, fb := fields(a), fields(b)
 	for i := range fa {
 		if fa[i][1] != fb[i][1] {
+			switch fa[i][0] {
+			case "detail", "err", "st":
+				if sameModuloDictOrder(fa[i][1], fb[i][1]) {
+					*permuted++
+					continue
+				}
+			}
 			return fa[i][0], fa[i][1], fb[i][1]
 		}
 	}
 	return "", "", ""
+}
+
+func sameModuloDictOrder(a, b string) bool {
+	if len(a) != len(b) || !strings.Contains(a, "{'") {
+		return false
+	}
+	var ca, cb [256]int
+	for i := 0; i < len(a); i++ {
+		ca[a[i]]++
+		cb[b[i]]++
+	}
+	return ca == cb
 }
 
 type stEvent struct{ Type, Name, Val, Extra, Op, Detail string }
@@ -529,7 +551,12 @@ func compareRuns(c Case, s *rt.Section, oracle, what string, got, want []StepOut
 		if i >= len(got) {
 			return s.NewFailure(oracle, oracle+":short", c, fmt.Sprintf("%s ran %d steps", what, len(got)), fmt.Sprintf("%d steps", len(want)))
 		}
-		if field, gv, wv := diff(got[i], want[i]); field != "" {
+		permuted := 0
+		field, gv, wv := diff(got[i], want[i], &permuted)
+		if permuted > 0 && s != nil {
+			s.ClassN("text-differs-only-in-dict-print-order", int64(permuted))
+		}
+		if field != "" {
 			st := c.Steps[offset+i]
 			return s.NewFailure(oracle, oracle+":"+field+"/"+kindsSig(st), c,
 				fmt.Sprintf("%s, step %d %s(%q): %s = %s", what, offset+i, apiName(st.API), clip(st.Src, 300), field, clip(gv, 600)),
